@@ -100,12 +100,15 @@ def run_check(pid, tier, seed, replay=None):
             n = len(suppressed.get(k["tag"], []))
             lines.append(f"KNOWN-FINDING: property={pid} {k['what']} [{k['tag']}; reproduced {n}x this run]")
     seen_what = set()
+    import glob
+    for old in glob.glob(os.path.join(common.REPLAYS, f"{pid}_*.json")):
+        os.unlink(old)
     for i, f in enumerate(real):
-        key = f["what"][:80]
-        if key in seen_what and i >= 3:
+        key = f["what"][:60]
+        if key in seen_what:
             continue
         seen_what.add(key)
-        path = common.write_replay(pid, len(seen_what), {"property": pid, "kind": f["kind"], "what": f["what"], "input": f["replay"]})
+        path = common.write_replay(pid, violations + 1, {"property": pid, "kind": f["kind"], "what": f["what"], "tag": f.get("tag"), "input": f["replay"]})
         lines.append(f"VIOLATION property={pid} replay={path}")
         violations += 1
         if violations >= 5:
@@ -137,7 +140,9 @@ def run_check(pid, tier, seed, replay=None):
     cov.update(common.jsonable(res.extra))
     ev = {"property_id": pid, "tier": tier, "seed": int(seed), "level": "proof", "coverage": cov,
           "assumptions": list(getattr(mod, "ASSUMPTIONS", [])), "wall_s": round(wall, 2), "violations": violations}
-    with open(os.path.join(common.EVID, f"{pid}.json"), "w") as f:
+    evdir = common.EVID if not os.environ.get("VERIF_NO_EVIDENCE") else os.path.join(common.WORK, "evidence_scratch")
+    os.makedirs(evdir, exist_ok=True)
+    with open(os.path.join(evdir, f"{pid}.json"), "w") as f:
         json.dump(ev, f, indent=1)
     for ln in lines:
         print(ln)
